@@ -196,6 +196,7 @@ more6 = {
 for k, v in more6.items():
     more[k] = more.get(k, "") + v
 more7 = {
+ "C07": " Round 7: an input of 16 MiB + 4321 bytes (the size needs all four bytes of the header field).",
  "C08": " Round 7: every stream is also read by a consumer that takes exactly the declared number of bytes and closes without seeing the end of the stream (a success of Close must be as sound as after a complete read).",
  "C09": " Round 7: a body of a little more than 64 KiB.",
  "C13": " Round 7: the TNC is gone right behind its k-th frame to the host (k = 1..8), with the application's clean-up call.",
